@@ -404,3 +404,26 @@ Proof.
   - intros r Hin Hid. apply hidden_in_list in Hin. destruct Hin as [A B].
     rewrite Hv in A. specialize (Hall r A Hid). congruence.
 Qed.
+
+(** converse of [list_spec]: List is exactly "alive, and (query folded to TRUE or some visible matching
+    document belongs to a repository of that name)" *)
+Theorem list_complete : forall v q r,
+  In r (v_repos v) -> r_tomb r = false ->
+  (simplify (v_repos v) q = QConst true \/
+   exists i r' d, In (i, r', d) (search v q) /\ r_name r' = r_name r) ->
+  In r (list_repos v q).
+Proof.
+  intros v q r Hin Ht H. unfold list_repos.
+  assert (Ha : In r (alive (v_repos v))) by (apply alive_In; auto).
+  assert (Gen : (exists i r' d, In (i, r', d) (search_from (v_repos v) (simplify (v_repos v) q) (v_docs v) 0) /\ r_name r' = r_name r) ->
+          In r (filter (fun r0 => memN (r_name r0)
+                  (map (fun x => r_name (snd (fst x))) (search_from (v_repos v) (simplify (v_repos v) q) (v_docs v) 0)))
+                  (alive (v_repos v)))).
+  { intros [i [r' [d [Hs Hn]]]]. apply filter_In. split; [exact Ha|].
+    apply memN_In. apply in_map_iff. exists (i, r', d). split; [exact Hn|exact Hs]. }
+  unfold search in H.
+  destruct (simplify (v_repos v) q) as [[|]| | | | |] eqn:S;
+    try (destruct H as [H|H]; [discriminate|apply Gen; exact H]).
+  - exact Ha.
+  - destruct H as [H|[i [r' [d [[] _]]]]]. discriminate.
+Qed.
